@@ -168,6 +168,36 @@ Example C02_example_address :
   hname_of [88;45;70;111;114;119;97;114;100;101;100;45;70;111;114] = XFF.
 Proof. vm_compute. repeat split. Qed.
 
+(* End to end on concrete bytes (peer 9.9.9.9:7):
+     POST /p?q=1 HTTP/1.0 | X-B: 1 | COOKIE: a=1; b=2 | Host:h | x-b:<TAB>2 | X-Forwarded-For: 1.1.1.1, x ,2.2.2.2 |
+     Content-Length: 2 | | hi  followed by "NEXT"
+   parses to the expected request and leaves "NEXT"; cookies and addresses are as specified; its serialisation puts the
+   fields in Headers::iter order and parses back to the same request up to that order. *)
+Definition C02_example_bytes : bytes :=
+  [80;79;83;84;32;47;112;63;113;61;49;32;72;84;84;80;47;49;46;48;13;10; 88;45;66;58;32;49;13;10;
+   67;79;79;75;73;69;58;32;97;61;49;59;32;98;61;50;13;10; 72;111;115;116;58;104;13;10; 120;45;98;58;9;50;13;10;
+   88;45;70;111;114;119;97;114;100;101;100;45;70;111;114;58;32;49;46;49;46;49;46;49;44;32;120;32;44;50;46;50;46;50;46;50;13;10;
+   67;111;110;116;101;110;116;45;76;101;110;103;116;104;58;32;50;13;10; 13;10; 104;105; 78;69;88;84].
+Definition C02_example_peer : peer := {| p_ip := [57;46;57;46;57;46;57]; p_port := 7 |}.
+Definition C02_example_request : request :=
+  {| r_method := 1; r_uri := [47;112]; r_query := [113;61;49]; r_version := [72;84;84;80;47;49;46;48];
+     r_headers := [(HCustom [120;45;98], [49]); (HKnown H_Cookie, [97;61;49;59;32;98;61;50]); (HKnown H_Host, [104]);
+                   (HCustom [120;45;98], [50]);
+                   (XFF, [49;46;49;46;49;46;49;44;32;120;32;44;50;46;50;46;50;46;50]); (HKnown H_ContentLength, [50])];
+     r_content := Some [104;105];
+     r_addr := {| a_origin := [50;46;50;46;50;46;50]; a_proxies := [[49;46;49;46;49;46;49]; [57;46;57;46;57;46;57]];
+                  a_port := 7 |} |}.
+Example C02_example_end_to_end :
+  parse_request_flat ipv4_parse C02_example_peer C02_example_bytes = Ok (C02_example_request, [78;69;88;84]) /\
+  cookies_of (r_headers C02_example_request) = [([97],[49]); ([98],[50])] /\
+  hget_all (hname_of [88;45;98]) (r_headers C02_example_request) = [[49];[50]] /\
+  map fst (hsort (r_headers C02_example_request)) =
+    [HKnown H_Cookie; HKnown H_Host; HKnown H_ContentLength; HCustom [120;45;98]; HCustom [120;45;98]; XFF] /\
+  parse_request_flat ipv4_parse C02_example_peer (serialize_request C02_example_request ++ [78;69;88;84]) =
+    Ok (sorted_request C02_example_request, [78;69;88;84]) /\
+  sorted_request C02_example_request <> C02_example_request.
+Proof. vm_compute. repeat split. discriminate. Qed.
+
 Print Assumptions C02_parse_faithful.
 Print Assumptions C02_example_wf.
 Print Assumptions C02_names_case_insensitive.
@@ -186,3 +216,4 @@ Print Assumptions C02_address_no_header.
 Print Assumptions C02_address_padding.
 Print Assumptions C02_example_address.
 Print Assumptions C02_content_length_canonical.
+Print Assumptions C02_example_end_to_end.
